@@ -279,7 +279,14 @@ func main() {
 				run.Eval(1)
 				run.Distinct(fmt.Sprintf("%s|%s|%s|%s", j.set.name, j.proto, j.conn, form))
 				if err != nil || resp.Status != 200 {
-					run.Violation("request-failed", tc, "request failed: %v %+v", err, resp)
+					last := ""
+					if s.Peer != nil {
+						evs := s.Peer.Events()
+						for _, e := range evs[max(0, len(evs)-5):] {
+							last += e.String() + " ;; "
+						}
+					}
+					run.Violation("request-failed", tc, "request failed: %v %+v; last frames from the server: %s", err, resp, last)
 					return
 				}
 				recs := be.Records(tag)
